@@ -102,6 +102,13 @@ CHECKS.update({
    note="Trusted: the reference (engine/seqx/c15.cpp, from the property text); printable-ASCII categories; lines with several '=' or upper-case booleans left out."),
 })
 
+CHECKS.update({
+ "C14": dict(engine="seqx", level=EX, design="§7 C14",
+   technique="bounded-exhaustive enumeration of token strings over four syntax alphabets (signatures, patterns, category rules, messages) plus a finite long-input family on the real formatters and filters in an ASan+UBSan build with Qt assertions on and a per-case watchdog; crash/hang attributed to one case through a shared marker",
+   text="Every token string up to the bound over alphabets built from the syntax the parsers look for (brackets, ::, operator, lambda, (*, )(, %, {, }, :, ?, digits, if-/endif, rule separators and regex metacharacters, control/astral/combining characters) and a long family (every token, ordered token pair and a^n b^n repeated to the size cap) is pushed through %{func}/%{function}/%{shortfile}, pattern construction + formatting, CategoryFilter, a menu of 12 regular expressions, Pretty/JSON/Sentry formatters; no sanitizer report, no assertion, no signal, every case within its time budget. Exhaustive to the token bound only.",
+   note="Trusted: AddressSanitizer/UBSan and Qt's own Q_ASSERTs (the library is compiled without QT_NO_DEBUG) as the oracle; PCRE match limits make pathological expressions fail rather than hang."),
+})
+
 PENDING = {}
 
 def main():
